@@ -23,9 +23,19 @@
  *              2 + WITH_PARENTS, 3 lyd_dup_single of each instance in turn, 4 the same with NO_LYDS; at top level the
  *              duplicates are made without parent and inserted with lyd_insert_sibling (lyds_merge). The duplicates get
  *              their identities in source order.
+ *        g<o>  lyd_merge_tree / lyd_merge_siblings of the source into the parent, o = 1 with LYD_MERGE_DESTRUCT (oracle only)
  *        s<i>  lyd_unlink_siblings at the instance at position i (lyds_split when it is not the leader); it and ALL
  *              following siblings become the chain (one chain at a time; oracle only, not in the Coq model)
  *        m     insert the chain again (lyd_insert_child / lyd_insert_sibling of its first node -> lyd_move_nodes -> lyds_merge)
+ *   sib  <place> <ops>                  ALL children of one parent (place c: container k of module s2, t: top level of s2):
+ *        leaves l1..l6, system-ordered leaf-list sl, user-ordered list ul and leaf-list uu, opaque nodes; schema order
+ *        l1 l2 sl l3 ul uu l4 l5 l6 (schema index 0..8)
+ *        L<n> create leaf l<n>   S<k> sl instance   U<k> ul instance   V<k> uu instance   O<c> opaque node named c (x y z)
+ *        A<i>.<j> lyd_insert_after(sibling at position j, node at position i)   B<i>.<j> lyd_insert_before
+ *        X<i> lyd_free_tree of the sibling at position i   Y<i> lyd_unlink_tree -> pool   R<j> insert pool node j again
+ *        dump: <schema index>:<key>#<id> for data nodes, ~<name>#<id> for opaque nodes, in sibling order
+ *        inv: L sibling / parent links  D data node behind an opaque node  Q lyd_find_sibling_opaq_next differs from a scan
+ *             H lyd_find_sibling_first misses a node or answers a different value  V lyd_find_sibling_val likewise
  * After EVERY op: result, state dump (every <every>-th op and the last one, otherwise ~) and the read-only
  * invariant check, `res/dump/inv`; ops separated by one blank.
  *   tree dump: pre-order, (<colour><key>.<id><left><right>), . for NULL; - when there is no metadata
@@ -65,6 +75,19 @@ static const char *MODULE =
         " list l2 {key \"a b\"; leaf a {type int8;} leaf b {type int8;} leaf v {type string;}}"
         " leaf tz {type int8;}"
         " }}";
+
+#define SIBBODY \
+        " leaf l1 {type string;} leaf l2 {type string;}" \
+        " leaf-list sl {type int8;}" \
+        " leaf l3 {type string;}" \
+        " list ul {key k; ordered-by user; leaf k {type int8;}}" \
+        " leaf-list uu {type int8; ordered-by user;}" \
+        " leaf l4 {type string;} leaf l5 {type string;} leaf l6 {type string;}"
+static const char *MODULE2 =
+        "module s2 {namespace \"urn:s2\"; prefix s2; yang-version 1.1;"
+        SIBBODY
+        " container k {" SIBBODY " }}";
+static const struct lys_module *mod2;
 
 static const char *TYPES[] = {"i8", "str", "d64", "un", "l1", "l2"};
 #define NTYPES 6
@@ -654,6 +677,30 @@ do_insert(struct lst *s, struct lyd_node *n)
     }
 }
 
+/* identities of the duplicates of the source instances (from sf on), in source order: the first instance without identity
+ * that equals the source instance */
+static void
+assign_dup_ids(struct lst *s, struct lyd_node *sf)
+{
+    char bad[24] = "";
+    struct lyd_node *it;
+
+    collect(s, bad);
+    LY_LIST_FOR(sf, it) {
+        if ((it->schema != s->schema) && strcmp(LYD_NAME(it), s->schema->name)) {
+            continue;
+        }
+        for (int i = 0; i < s->ninst; i++) {
+            if (!s->inst[i]->priv && !lyd_compare_single(it, s->inst[i], 0) && (nn < MAXN)) {
+                nkey[nn] = nkey[node_id(it)];
+                s->inst[i]->priv = (void *)(intptr_t)(nn + 1);
+                ++nn;
+                break;
+            }
+        }
+    }
+}
+
 static void
 run_lyds(struct vcase *c)
 {
@@ -826,19 +873,35 @@ run_lyds(struct vcase *c)
                 } else {
                     rc = lyd_dup_siblings(sf, (struct lyd_node_inner *)par, opts, &dup);
                 }
-                /* identities of the duplicates, in source order */
-                collect(s, bad);
-                LY_LIST_FOR(sf, it) {
-                    for (int i = 0; i < s->ninst; i++) {
-                        if (!s->inst[i]->priv && !lyd_compare_single(it, s->inst[i], 0) && (nn < MAXN)) {
-                            nkey[nn] = nkey[node_id(it)];
-                            s->inst[i]->priv = (void *)(intptr_t)(nn + 1);
-                            ++nn;
-                            break;
-                        }
-                    }
+                assign_dup_ids(s, sf);
+                printf(rc ? "E" : "+");
+            }
+        } else if (tok[0] == 'g') {
+            struct lyd_node *sf = s->top ? s->srcfirst : lyd_child(s->src);
+            uint16_t mopts = (arg == 1) ? LYD_MERGE_DESTRUCT : 0;
+            LY_ERR rc;
+
+            if (!sf) {
+                printf("x");
+            } else if (s->top) {
+                rc = lyd_merge_siblings(&s->first, s->srcfirst, mopts);
+                if (s->first) {
+                    s->first = lyd_first_sibling(s->first);
                 }
-                bad[0] = 0;
+                if (mopts) {
+                    s->srcfirst = NULL;
+                } else {
+                    assign_dup_ids(s, s->srcfirst);
+                }
+                printf(rc ? "E" : "+");
+            } else {
+                rc = lyd_merge_tree(&s->cont, s->src, mopts);
+                if (mopts) {
+                    s->src = NULL;
+                    lyd_new_inner(NULL, mod, "c", 0, &s->src);
+                } else {
+                    assign_dup_ids(s, lyd_child(s->src));
+                }
                 printf(rc ? "E" : "+");
             }
         } else if (tok[0] == 's') {
@@ -915,6 +978,291 @@ run_lyds(struct vcase *c)
     free(s);
 }
 
+
+/* ================================ sib ================================ */
+static const char *SIBNAMES[] = {"l1", "l2", "sl", "l3", "ul", "uu", "l4", "l5", "l6"};
+static int nsidx[MAXN];     /* schema index of node id, -1 - 'x' .. for opaque nodes: -(name char) */
+
+struct sib {
+    int top;
+    struct lyd_node *cont;
+    struct lyd_node *first;
+    struct lyd_node *all[MAXT];
+    int nall;
+};
+
+static struct lyd_node *
+sib_first(struct sib *s)
+{
+    return s->top ? s->first : lyd_child(s->cont);
+}
+
+static void
+sib_collect(struct sib *s, char *bad)
+{
+    struct lyd_node *it, *fs = sib_first(s), *prev = NULL;
+    int guard = 0, opq = 0;
+
+    s->nall = 0;
+    if (fs && fs->prev->next) {
+        bad_add(bad, 'L');
+    }
+    for (it = fs; it && (guard < 100000); prev = it, it = it->next, guard++) {
+        if (prev && (it->prev != prev)) {
+            bad_add(bad, 'L');
+        }
+        if ((!s->top && (lyd_parent(it) != s->cont)) || (s->top && it->parent)) {
+            bad_add(bad, 'L');
+        }
+        if (!it->schema) {
+            opq = 1;
+        } else if (opq) {
+            bad_add(bad, 'D');
+        }
+        if (s->nall < MAXT) {
+            s->all[s->nall++] = it;
+        }
+    }
+    if (fs && (fs->prev != (prev ? prev : fs))) {
+        bad_add(bad, 'L');
+    }
+}
+
+static void
+sib_key_pred(const struct lyd_node *n, char *buf)
+{
+    int id = node_id(n);
+
+    if (!strcmp(LYD_NAME(n), "ul")) {
+        sprintf(buf, "[k='%d']", nkey[id]);
+    } else {
+        sprintf(buf, "%d", nkey[id]);
+    }
+}
+
+static void
+sib_check_dump(struct sib *s)
+{
+    char bad[24] = "";
+    const char *names[] = {"x", "y", "z"};
+    int i, j;
+    struct lyd_node *fs;
+
+    sib_collect(s, bad);
+    fs = sib_first(s);
+    /* opaque search = scan */
+    for (j = 0; j < 3; j++) {
+        struct lyd_node *scan = NULL, *found = NULL;
+
+        for (i = 0; i < s->nall; i++) {
+            if (!s->all[i]->schema && !strcmp(LYD_NAME(s->all[i]), names[j])) {
+                scan = s->all[i];
+                break;
+            }
+        }
+        if (fs) {
+            lyd_find_sibling_opaq_next(fs, names[j], &found);
+        }
+        if (scan != found) {
+            bad_add(bad, 'Q');
+        }
+    }
+    /* data node searches */
+    for (i = 0; i < s->nall; i++) {
+        struct lyd_node *n = s->all[i], *m = NULL;
+        int id = node_id(n);
+        char buf[64];
+
+        if (!n->schema || (id < 0) || (id >= nn)) {
+            continue;
+        }
+        if (lyd_find_sibling_first(fs, n, &m) || !m || (m->schema != n->schema) || lyd_compare_single(m, n, 0)) {
+            bad_add(bad, 'H');
+        }
+        m = NULL;
+        if (n->schema->nodetype == LYS_LEAF) {
+            if (lyd_find_sibling_val(fs, n->schema, NULL, 0, &m) || (m != n)) {
+                bad_add(bad, 'V');
+            }
+        } else {
+            sib_key_pred(n, buf);
+            if (lyd_find_sibling_val(fs, n->schema, buf, 0, &m) || !m || (m->schema != n->schema) ||
+                    (node_id(m) < 0) || (nkey[node_id(m)] != nkey[id])) {
+                bad_add(bad, 'V');
+            }
+        }
+    }
+    for (i = 0; i < s->nall; i++) {
+        int id = node_id(s->all[i]);
+
+        if (i) {
+            putchar(',');
+        }
+        if ((id < 0) || (id >= nn)) {
+            printf("?");
+        } else if (nsidx[id] >= 0) {
+            printf("%d:%d#%d", nsidx[id], nkey[id], id);
+        } else {
+            printf("~%c#%d", -nsidx[id], id);
+        }
+    }
+    printf("/%s", bad[0] ? bad : "ok");
+}
+
+static void
+sib_insert(struct sib *s, struct lyd_node *n)
+{
+    if (!s->top) {
+        lyd_insert_child(s->cont, n);
+    } else if (s->first) {
+        lyd_insert_sibling(s->first, n, &s->first);
+    } else {
+        s->first = n;
+    }
+}
+
+static void
+sib_reg(struct lyd_node *n, int sidx, int key)
+{
+    if (n && (nn < MAXN)) {
+        nkey[nn] = key;
+        nsidx[nn] = sidx;
+        n->priv = (void *)(intptr_t)(nn + 1);
+        ++nn;
+    }
+}
+
+static void
+run_sib(struct vcase *c)
+{
+    struct sib *s = calloc(1, sizeof *s);
+    char *ops = c->f[2], *tok, *save = NULL;
+    struct lyd_node *pool[MAXT];
+    int npool = 0, first = 1;
+
+    nn = 0;
+    s->top = (c->f[1][0] == 't');
+    if (!s->top) {
+        lyd_new_inner(NULL, mod2, "k", 0, &s->cont);
+    }
+    for (tok = strtok_r(ops, " ", &save); tok; tok = strtok_r(NULL, " ", &save)) {
+        char bad[24] = "", val[16];
+        int arg = atoi(tok + 1), arg2 = -1;
+        char *dot = strchr(tok, '.');
+        struct lyd_node *n = NULL, *par = s->top ? NULL : s->cont;
+        LY_ERR rc = LY_SUCCESS;
+
+        if (dot) {
+            arg2 = atoi(dot + 1);
+        }
+        if (!first) {
+            putchar(' ');
+        }
+        first = 0;
+        sib_collect(s, bad);
+        if (tok[0] == 'L') {
+            static const int lidx[] = {0, 0, 1, 3, 6, 7, 8};
+            int sidx = ((arg >= 1) && (arg <= 6)) ? lidx[arg] : -1, present = 0;
+
+            for (int i = 0; (sidx >= 0) && (i < s->nall); i++) {
+                if (s->all[i]->schema && !strcmp(LYD_NAME(s->all[i]), SIBNAMES[sidx])) {
+                    present = 1;
+                }
+            }
+            if ((sidx < 0) || present) {
+                printf("x");
+            } else {
+                rc = lyd_new_term(par, mod2, SIBNAMES[sidx], "v", 0, &n);
+                if (!rc && n && s->top) {
+                    sib_insert(s, n);
+                }
+                sib_reg(n, sidx, 0);
+                printf((rc || !n) ? "E" : "+");
+            }
+        } else if ((tok[0] == 'S') || (tok[0] == 'V') || (tok[0] == 'U')) {
+            int sidx = (tok[0] == 'S') ? 2 : ((tok[0] == 'U') ? 4 : 5);
+
+            sprintf(val, "%d", arg);
+            if (tok[0] == 'U') {
+                rc = lyd_new_list(par, mod2, "ul", 0, &n, val);
+            } else {
+                rc = lyd_new_term(par, mod2, SIBNAMES[sidx], val, 0, &n);
+            }
+            if (!rc && n && s->top) {
+                sib_insert(s, n);
+            }
+            sib_reg(n, sidx, arg);
+            printf((rc || !n) ? "E" : "+");
+        } else if (tok[0] == 'O') {
+            char name[2] = {tok[1] ? tok[1] : 'x', 0};
+
+            rc = lyd_new_opaq(par, ctx, name, "1", NULL, "s2", &n);
+            if (!rc && n && s->top) {
+                sib_insert(s, n);
+            }
+            sib_reg(n, -(int)name[0], 0);
+            printf((rc || !n) ? "E" : "+");
+        } else if ((tok[0] == 'A') || (tok[0] == 'B')) {
+            if ((arg < 0) || (arg >= s->nall) || (arg2 < 0) || (arg2 >= s->nall)) {
+                printf("x");
+            } else {
+                struct lyd_node *node = s->all[arg], *sibl = s->all[arg2];
+
+                if (tok[0] == 'A') {
+                    rc = lyd_insert_after(sibl, node);
+                } else {
+                    rc = lyd_insert_before(sibl, node);
+                }
+                if (s->top && s->first) {
+                    s->first = lyd_first_sibling(sibl);
+                }
+                printf(rc ? "E" : "+");
+            }
+        } else if ((tok[0] == 'X') || (tok[0] == 'Y')) {
+            if ((arg < 0) || (arg >= s->nall)) {
+                printf("x");
+            } else {
+                n = s->all[arg];
+                if (s->top && (s->first == n)) {
+                    s->first = n->next;
+                }
+                if (tok[0] == 'Y') {
+                    rc = lyd_unlink_tree(n);
+                    if (!rc && (npool < MAXT)) {
+                        pool[npool++] = n;
+                    }
+                } else {
+                    lyd_free_tree(n);
+                }
+                printf(rc ? "E" : "-");
+            }
+        } else if (tok[0] == 'R') {
+            if ((arg < 0) || (arg >= npool)) {
+                printf("x");
+            } else {
+                n = pool[arg];
+                memmove(pool + arg, pool + arg + 1, (npool - arg - 1) * sizeof *pool);
+                npool--;
+                sib_insert(s, n);
+                printf("+");
+            }
+        } else {
+            printf("?");
+        }
+        putchar('/');
+        sib_check_dump(s);
+    }
+    for (int i = 0; i < npool; i++) {
+        lyd_free_tree(pool[i]);
+    }
+    if (s->top) {
+        lyd_free_all(s->first);
+    } else {
+        lyd_free_all(s->cont);
+    }
+    free(s);
+}
+
 int
 main(void)
 {
@@ -930,6 +1278,10 @@ main(void)
         fprintf(stderr, "module\n");
         return 2;
     }
+    if (lys_parse_mem(ctx, MODULE2, LYS_IN_YANG, (struct lys_module **)&mod2)) {
+        fprintf(stderr, "module2\n");
+        return 2;
+    }
     while (vnext(&c)) {
         /* a damaged tree can make the library loop for ever: the case then ends as CRASH(-14) */
         alarm(4);
@@ -937,6 +1289,8 @@ main(void)
             run_rbs(&c);
         } else if (!strcmp(c.f[0], "lyds") && (c.nf >= 5)) {
             run_lyds(&c);
+        } else if (!strcmp(c.f[0], "sib") && (c.nf >= 3)) {
+            run_sib(&c);
         } else {
             printf("?");
         }
